@@ -104,6 +104,24 @@ def lib_eval(cs, text, context):
         return e, ("err", ex)
 
 
+def typed_context(cs, context):
+    """The same bindings as instances of the types field values have: flag, enum, bool, sized integer."""
+    try:
+        F, E = cs.VF_ctx, cs.VE_ctx
+    except AttributeError:
+        try:
+            cs.load("flag VF_ctx : uint16 { VFP = 1, VFQ = 2 };\nenum VE_ctx : uint16 { VEA = 1, VEB = 2 };")
+            F, E = cs.VF_ctx, cs.VE_ctx
+        except Exception:  # noqa: BLE001
+            return None
+    out = {}
+    for i, (k, v) in enumerate(sorted(context.items())):
+        if not isinstance(v, int) or v < 0 or v > 0xFFFF:
+            return None
+        out[k] = (F(v), E(v), bool(v) if v in (0, 1) else cs.uint16(v), cs.uint8(v) if v < 256 else cs.uint16(v))[i % 4]
+    return out
+
+
 def judge(ctx, cs, text, context, consts, cellinfo=None):
     """Compare one expression under one binding with the reference; also repeatability."""
     try:
@@ -128,6 +146,21 @@ def judge(ctx, cs, text, context, consts, cellinfo=None):
             ctx.violation("value", "value-differs-from-C-precedence-evaluation",
                           {"text": text, "context": context, "consts": consts, "got": r[1], "want": want})
             return
+    # the values a parse context really holds are enum / flag members, bools and sized integers, not plain ints: they
+    # take part by their integer value (an operator a flag overloads -- ~, &, | with a mask of known bits -- must not
+    # leak into the arithmetic)
+    if defined and context and hash(text) % 3 == 0:
+        typed = typed_context(cs, context)
+        if typed is not None:
+            _e2, rt = lib_eval(cs, text, typed)
+            ctx.event("typed_context_evaluations")
+            import enum as _enum
+
+            if rt[0] != "ok" or rt[1] != want or isinstance(rt[1], _enum.Enum):
+                ctx.violation("value", "value-differs-when-the-context-holds-enum-flag-or-bool-values",
+                              {"text": text, "context": {k: repr(v) for k, v in typed.items()}, "consts": consts,
+                               "got": repr(rt[1]), "want": want})
+                return
     if e is None:
         return
     # repeatability: same object again; after a failing evaluation; with another context; vs a fresh object
